@@ -14,7 +14,7 @@ HARNESS_FLAGS = ["-std=c++17", "-O1", "-g", "-fsanitize=address,undefined",
                  "-fno-sanitize=alignment", "-fno-sanitize-recover=all",
                  "-fsanitize-recover=shift,signed-integer-overflow",
                  "-DELFIO_VERIF", "-I" + REPO]
-ASAN_ENV = {"ASAN_OPTIONS": "allocator_may_return_null=1:detect_leaks=0:abort_on_error=0",
+ASAN_ENV = {"ASAN_OPTIONS": "allocator_may_return_null=1:detect_leaks=0:abort_on_error=0:alloc_dealloc_mismatch=0",
             "UBSAN_OPTIONS": "print_stacktrace=0"}
 
 ALLOWED_AXIOMS = []   # the development is axiom-free; anything printed is reported
